@@ -6,27 +6,22 @@ import progs
 VERIF = progs.VERIF
 
 
-def run(pid, tier):
-    t0 = time.time()
-    tdir = os.path.join(VERIF, 'target', 'feat-schema')
-    r = progs.sh(['cargo', 'build', '--release', '--offline', '-q', '-p', 'vengine', '--features', 'schema'], os.path.join(VERIF, 'harness'), {'CARGO_TARGET_DIR': tdir})
-    if r.returncode != 0:
-        print(r.stdout[-3000:]); print('MACHINERY-FAILURE: engine does not build with the schema feature'); return 2
-    out = os.path.join(VERIF, 'build', 'c19')
+def one_config(label, exe_cmd, tier, violations):
+    out = os.path.join(VERIF, 'build', 'c19-' + label)
     shutil.rmtree(out, ignore_errors=True)
     os.makedirs(out)
-    d = subprocess.run([os.path.join(tdir, 'release', 'vengine'), 'C19-dump', tier, out], stdout=subprocess.PIPE, stderr=subprocess.PIPE, text=True)
+    d = subprocess.run(exe_cmd + [tier, out], stdout=subprocess.PIPE, stderr=subprocess.PIPE, text=True)
     if d.returncode != 0:
-        print(d.stderr[-2000:]); print('MACHINERY-FAILURE: dump failed'); return 2
+        print(d.stderr[-2000:]); print('MACHINERY-FAILURE: dump failed (%s)' % label); sys.exit(2)
     stats = json.loads(d.stdout.strip().splitlines()[-1])
     files = sorted(glob.glob(os.path.join(out, 'entries_*.json'))) + [os.path.join(out, 'whole.json')]
     v = subprocess.run(['python3-vt', os.path.join(VERIF, 'gen', 'validate_schema.py'), os.path.join(out, 'schema.json')] + files, stdout=subprocess.PIPE, stderr=subprocess.PIPE, text=True)
     if v.returncode != 0:
-        print(v.stderr[-2000:]); print('MACHINERY-FAILURE: validator failed'); return 2
+        print(v.stderr[-2000:]); print('MACHINERY-FAILURE: validator failed'); sys.exit(2)
     res = json.loads(v.stdout)
     if not all(res['liveness']):
-        print('MACHINERY-FAILURE: the validator accepted a known-invalid control document: %s' % res['liveness']); return 2
-    violations, entries, docs = [], 0, 0
+        print('MACHINERY-FAILURE: the validator accepted a known-invalid control document: %s' % res['liveness']); sys.exit(2)
+    entries, docs = 0, 0
     for f in res['results']:
         entries += f['entries']; docs += f['documents']
         for e in f['errors']:
@@ -37,14 +32,33 @@ def run(pid, tier):
                 defkind = next(iter(inst.get('type', {}).get('def', {})), '') if isinstance(inst, dict) else ''
             except Exception:
                 pass
-            violations.append({'key': 'schema-rejects:%s:%s' % (kind, e['validator'] + (':' + defkind if defkind else '')), 'msg': 'the generated schema rejects a serialised registry: %s at /%s — %s' % (e['message'], '/'.join(e['path']), e['instance'][:400]),
-                               'case': {'kind': 'document', 'instance': e['instance'], 'path': e['path'], 'message': e['message']}})
+            violations.append({'key': 'schema-rejects:%s:%s' % (kind, e['validator'] + (':' + defkind if defkind else '')), 'msg': '[features %s] the generated schema rejects a serialised registry: %s at /%s — %s' % (label, e['message'], '/'.join(e['path']), e['instance'][:400]),
+                               'case': {'kind': 'document', 'features': label, 'instance': e['instance'], 'path': e['path'], 'message': e['message']}})
     schema = json.load(open(os.path.join(out, 'schema.json')))
-    cov = {'evaluations': entries + docs, 'entries_validated': entries, 'documents': docs, 'distinct_nontrivial': stats['entries'], 'registries_serialised': stats['registries'],
-           'whole_documents': stats['whole_documents'], 'schema_definitions': len(schema.get('definitions', {})), 'liveness_controls_rejected': len(res['liveness']), 'exhaustive': True,
-           'rule': 'regspace (every definition kind, optional parts present and absent, boundary strings and ids; k-deviation mixtures) serialised by the library under the schema feature and validated entry by entry (1000 per document) with jsonschema Draft7 against schema_for!(PortableRegistry); plus whole documents: the empty registry produced three ways, every U1 registry, the full U1 registry, retain results incl. retain-nothing; non-trivial = distinct entries; six known-invalid control documents must be rejected',
-           'samples': [json.load(open(files[0]))['types'][i] for i in (0, 500, 999) if i < len(json.load(open(files[0]))['types'])]}
+    sample = json.load(open(files[0]))['types']
+    info = {'entries_validated': entries, 'documents': docs, 'distinct_entries': stats['entries'], 'registries_serialised': stats['registries'], 'whole_documents': stats['whole_documents'],
+            'schema_definitions': len(schema.get('definitions', {})), 'liveness_controls_rejected': len(res['liveness'])}
     shutil.rmtree(out, ignore_errors=True)
+    return info, [sample[i] for i in (0, 500, 999) if i < len(sample)]
+
+
+def run(pid, tier):
+    t0 = time.time()
+    tdir = os.path.join(VERIF, 'target', 'feat-schema')
+    r = progs.sh(['cargo', 'build', '--release', '--offline', '-q', '-p', 'vengine', '--features', 'schema'], os.path.join(VERIF, 'harness'), {'CARGO_TARGET_DIR': tdir})
+    if r.returncode != 0:
+        print(r.stdout[-3000:]); print('MACHINERY-FAILURE: engine does not build with the schema feature'); return 2
+    tdir2 = os.path.join(VERIF, 'target', 'c19nb')
+    r = progs.sh(['cargo', 'build', '--release', '--offline', '-q', '-p', 'c19nb'], os.path.join(VERIF, 'harness'), {'CARGO_TARGET_DIR': tdir2})
+    if r.returncode != 0:
+        print(r.stdout[-3000:]); print('MACHINERY-FAILURE: the schema-without-bit-vec binary does not build'); return 2
+    violations = []
+    a, samples = one_config('schema+serde+decode+derive+bit-vec', [os.path.join(tdir, 'release', 'vengine'), 'C19-dump'], tier, violations)
+    b, _ = one_config('schema+serde+decode+derive', [os.path.join(tdir2, 'release', 'c19nb')], tier, violations)
+    cov = {'evaluations': a['entries_validated'] + a['documents'] + b['entries_validated'] + b['documents'], 'distinct_nontrivial': a['distinct_entries'],
+           'configurations': {'with bit-vec': a, 'without bit-vec': b}, 'exhaustive': True,
+           'rule': 'regspace (every definition kind incl. bit sequences, optional parts present and absent, boundary strings and ids; k-deviation mixtures) serialised by the library under the schema feature and validated entry by entry (1000 per document) with jsonschema Draft7 against schema_for!(PortableRegistry), in two feature configurations (with and without bit-vec); plus whole documents: the empty registry produced three ways, a sample of whole regspace registries, every U1 registry, the full U1 registry, retain results incl. retain-nothing; non-trivial = distinct entries; six known-invalid control documents must be rejected',
+           'samples': samples}
     return progs.report('C19', tier, 'exploration', cov, violations, ['python jsonschema (Draft 7) is the validator; schemars 0.8 generates the schema'], t0)
 
 
